@@ -466,6 +466,13 @@ func (c *compiler) evalAccessIndex(left, index interface{}, node *ast.IndexExpre
 	var returnValue interface{}
 	var err error
 	rv := reflect.ValueOf(left)
+	if rv.Kind() == reflect.Ptr && !rv.IsNil() {
+		// a pointer to an array (a slice, a map) is indexed like what it points
+		// to, the way a for loop ranges over it and a member is selected
+		// through a pointer to a struct
+		rv = rv.Elem()
+		left = rv.Interface()
+	}
 	switch rv.Kind() {
 	case reflect.Map:
 		if index == nil {
